@@ -1,5 +1,6 @@
 use crate::core::Cx;
 
+pub mod c01;
 pub mod c02;
 pub mod c03;
 pub mod c04;
@@ -22,6 +23,7 @@ pub mod c20;
 
 pub fn run(id: &str, cx: &mut Cx) -> bool {
     match id {
+        "C01" => c01::run(cx),
         "C02" => c02::run(cx),
         "C03" => c03::run_prop(cx),
         "C04" => c04::run(cx),
